@@ -59,6 +59,12 @@ var nativeHandlers = map[string]nativeHandler{
 	"github.com/invopop/gobl/tax.AllAddonDefs": func(i *interpreter, args []value) value {
 		return i.importNative(reflect.ValueOf(tax.AllAddonDefs()))
 	},
+	"(github.com/invopop/gobl/cbc.Key).Validate": func(i *interpreter, args []value) value {
+		if err := cbc.Key(strArg(args[0])).Validate(); err != nil {
+			return i.opaqueError(err.Error(), iface{})
+		}
+		return iface{}
+	},
 	"github.com/invopop/gobl/tax.ExtensionForKey": func(i *interpreter, args []value) value {
 		return i.importNative(reflect.ValueOf(tax.ExtensionForKey(cbc.Key(strArg(args[0])))))
 	},
